@@ -191,7 +191,7 @@ def run(ctx):
         for v, sty in STRATS.items():
             a = facts.fn("%s::%s::is_match" % (G, sty))
             b = facts.fn("%s::%s::matches_into" % (G, sty))
-            fa, fb = features(a), features(b)
+            fa, fb = features(a, facts), features(b, facts)
             if fa == fb and fa:
                 r.ok(sty, "both use %s" % sorted(fa), fn=a)
             else:
@@ -585,8 +585,15 @@ def closure_verdict(facts, g, token, fields=None):
     return out
 
 
-def features(f):
-    """What a strategy method looks at: Candidate fields, helper calls, emptiness guard, anchoring test."""
+def features(f, facts=None):
+    """What a strategy method looks at: Candidate fields, helper calls, emptiness guard, anchoring test — in the method and
+    in the closures it hands to adapters (`find_iter(..).any(|m| m.start() == 0)`)."""
+    if facts is not None:
+        out = set()
+        for u_ in [f] + facts.closures_of(f.path):
+            out |= features(u_)
+        # (a captured candidate field reads as a field of the closure environment: the name is the same)
+        return out
     eb = ExprBuilder(f)
     feats = set()
     rd, _, _ = field_rw(f)
